@@ -210,6 +210,80 @@ def analyse(text: str) -> dict[str, Any]:
         "with entry.lock:\n    if entry.closed:\n        return\n    entry.closed = True\n"
         "    cls._close_state_suppressed(entry.state)"])
 
+    # ---- how `_close_entry` waits for the entry lock: blocking, or bounded (then: does the close go on anyway?)
+    def _number(node: ast.AST) -> float | None:
+        if isinstance(node, ast.Constant) and isinstance(node.value, (int, float)) and not isinstance(node.value, bool):
+            return float(node.value)
+        if isinstance(node, ast.Name):  # a module-level numeric constant
+            for st in tree.body:
+                tgt = None
+                if isinstance(st, ast.Assign) and len(st.targets) == 1:
+                    tgt, val = st.targets[0], st.value
+                elif isinstance(st, ast.AnnAssign) and st.value is not None:
+                    tgt, val = st.target, st.value
+                if tgt is not None and isinstance(tgt, ast.Name) and tgt.id == node.id:
+                    return _number(val)
+        return None
+
+    wait_ms: int | None = None
+    proceeds = False
+    ce = reg.get("_close_entry")
+    if ce is not None:
+        timed = []
+        for c in _calls(ce, "acquire"):
+            kw = {k.arg: k.value for k in c.keywords}
+            tmo = kw.get("timeout", c.args[1] if len(c.args) > 1 else None)
+            blocking = kw.get("blocking", c.args[0] if c.args else None)
+            if blocking is not None and isinstance(blocking, ast.Constant) and blocking.value is False:
+                timed.append((c, 0.0))
+            elif tmo is not None:
+                v = _number(tmo)
+                if v is None:
+                    raise ValueError(f"_close_entry: cannot evaluate the acquire timeout `{_u(tmo)}`")
+                if v >= 0:
+                    timed.append((c, v))
+        if timed:
+            wait_ms = int(round(min(v for _c, v in timed) * 1000))
+            # the variable holding the acquire's result, and whether the hook call is guarded by it
+            names = set()
+            for n in ast.walk(ce):
+                if isinstance(n, (ast.Assign, ast.AnnAssign, ast.NamedExpr)) and any(c is n.value for c, _v in timed):
+                    tgts = n.targets if isinstance(n, ast.Assign) else [n.target]
+                    names |= {t.id for t in tgts if isinstance(t, ast.Name)}
+
+            def guarded(node: ast.AST, inside: bool) -> bool:
+                """every `_close_state_suppressed` call below `node` is inside `if <acquired>:` / after `if not <acquired>: return`"""
+                if isinstance(node, ast.Call) and _u(node.func).endswith("_close_state_suppressed"):
+                    return inside
+                body_ok = True
+                if isinstance(node, ast.If):
+                    test = _u(node.test)
+                    pos = test in names or any(c is node.test for c, _v in timed)
+                    for ch in node.body:
+                        body_ok = body_ok and guarded(ch, inside or pos)
+                    for ch in node.orelse:
+                        body_ok = body_ok and guarded(ch, inside)
+                    return body_ok
+                seq = getattr(node, "body", None)
+                if isinstance(seq, list):
+                    ins = inside
+                    for ch in seq:
+                        body_ok = body_ok and guarded(ch, ins)
+                        if (isinstance(ch, ast.If) and isinstance(ch.test, ast.UnaryOp) and isinstance(ch.test.op, ast.Not)
+                                and (_u(ch.test.operand) in names or any(c is ch.test.operand for c, _v in timed))
+                                and ch.body and isinstance(ch.body[-1], (ast.Return, ast.Raise))):
+                            ins = True
+                    for extra in ("orelse", "finalbody", "handlers"):
+                        for ch in getattr(node, extra, []) or []:
+                            body_ok = body_ok and guarded(ch, ins)
+                    return body_ok
+                for ch in ast.iter_child_nodes(node):
+                    body_ok = body_ok and guarded(ch, inside)
+                return body_ok
+
+            proceeds = not guarded(ce, False)
+    out["closeLockWaitMillis"], out["closeProceedsWithoutLock"] = wait_ms, proceeds
+
     def no_direct() -> bool:
         callers = []
         for cname, c in classes.items():
@@ -338,6 +412,14 @@ def reaperTickMillis : Nat := {a["reaperTickMillis"]}
 """]
     for k, doc in DOC.items():
         parts.append(f"\n/-- {doc} -/\ndef {k} : Bool := {_b(a[k])}\n")
+    parts.append(f"""
+/-- `_close_entry` waits for the entry lock: `none` = blocking (`with entry.lock:`), `some ms` =
+`entry.lock.acquire(timeout=…)` (the acquire can fail) -/
+def closeLockWaitMillis : Option Nat := {"none" if a["closeLockWaitMillis"] is None else "some " + str(a["closeLockWaitMillis"])}
+
+/-- with a bounded wait: the `closed` check and `state.close()` run even when the lock was not obtained -/
+def closeProceedsWithoutLock : Bool := {_b(a["closeProceedsWithoutLock"])}
+""")
     parts.append(f"""
 /-- normalised-AST fingerprint of the modelled classes / functions (drift indicator only) -/
 def fingerprint : String := "{a["fingerprint"]}"
